@@ -1,5 +1,5 @@
 ENGINES = [
-    {"name": "symx", "path": "vt/symx.py", "serves_properties": ["C05"],
+    {"name": "symx", "path": "vt/symx.py", "serves_properties": ["C04", "C05", "C06", "C07"],
      "kind_free_text": "symbolic execution of the real Python code on z3-backed proxies (DFS over decision prefixes by re-execution), "
                        "environment models for built-ins (vt/envmodels.py), concrete replay of every counterexample and one witness per path"},
 ]
@@ -18,4 +18,31 @@ CHECKS = {
              "every run); CPython's list. Bounds: list length, replacement length, *= factor <= 3 for non-empty lists, |step| <= 8 in the "
              "length-unbounded normalisation obligation. Outside: sort with a user key that raises or mutates, validators that mutate the list."),
 }
+CHECKS["C06"] = dict(
+    text="Bounded model checking by symbolic execution of the real TraitDict methods: keys and values are unbounded z3 Ints held in a real "
+         "dict under a constant-hash discipline, so which operation key aliases which stored key is decided by z3; refinement of dict "
+         "(return values, exception classes), failure atomicity, event count and the reconstruction law are discharged on every path; "
+         "stored entries s<=3 (4), update/|= arguments <=2 (3) pairs incl. duplicates; identity / rejecting / coercing validators; "
+         "one-step obligations from an arbitrary valid state (inductive: no hidden state, asserted).",
+    design_ref="DESIGN.md section 4 C06", technique="symbolic execution of the real Python code with z3 (symx), counterexamples replayed",
+    note="Trusted: z3, CPython dict. Stub: hash(proxy)==0 for every key. setdefault under a coercing key validator follows the tested "
+         "traits behaviour (raw-key containment first). Outside: unhashable or self-mutating keys, keys whose __eq__ has side effects.")
+CHECKS["C07"] = dict(
+    text="Bounded model checking by symbolic execution of the real TraitSet methods on a real set of constant-hash z3 Int proxies: overlap "
+         "between stored and argument elements decided by z3; delta laws, silence of no-ops, refinement of set for identity/rejecting "
+         "validators (delta laws + validity + atomicity for the coercing one), non-set operands of the operators; s<=2 (3) stored elements, "
+         "1-2 argument iterables of <=2 (3) items. Copy/deepcopy/pickle(2-5) obligations are concrete enumerations (C boundary).",
+    design_ref="DESIGN.md section 4 C07", technique="symbolic execution of the real Python code with z3 (symx), counterexamples replayed",
+    note="Trusted: z3, CPython set. Stub: hash(proxy)==0. Which element pop() returns is unspecified and not compared. "
+         "Outside: elements that are themselves sets/unhashable, iterables with side effects.")
+CHECKS["C04"] = dict(
+    text="Bounded model checking by symbolic execution of the real TraitListObject / TraitDictObject / TraitSetObject and List.validate on a "
+         "real HasTraits owner: list indices, slice fields, *= factor and the trait's minlen/maxlen are unbounded z3 Ints (length bound "
+         "discharged as a formula over minlen/maxlen); dict keys/values and set elements are z3 Ints validated by Python-level inner traits; "
+         "list items from a concrete pool (valid / convertible True / invalid) at a symbolic position; on failure contents, the items "
+         "event log, the whole-value log and the observe log must be unchanged. Nested List(List), Dict(Str, List): two-step choice histories.",
+    design_ref="DESIGN.md section 4 C04", technique="symbolic execution of the real Python code with z3 (symx), counterexamples replayed",
+    note="Trusted: z3, environment models (self-tested), the compiled Int validator and trait_items_event run concretely. Stubs: "
+         "List.full_info (message text), ListModel/MSlice. Bounds: n<=3 (5), m<=2 (3), s<=2 (3). Outside: inner traits other than "
+         "Int/Str/List/Python-validated, sort(key=raising), spurious rejections (the statement does not forbid them).")
 NOT_APPLICABLE = {p: NOT_BUILT for p in ["C%02d" % i for i in range(1, 21)]}
